@@ -195,14 +195,48 @@ def _run_entry(case, cfg_path, obs):
     verbose = bool(case.get("verbose"))
     buf = io.StringIO()
     with contextlib.redirect_stdout(buf):
-        if entry == "loader":
-            from chuk_mcp.transports.stdio.stdio_client import stdio_client
+        legacy = case.get("legacy")
+        if entry == "loader" and legacy in ("transport", "asyncgen"):
+            # the old package layout: `chuk_mcp.mcp_client.StdioClient` (today's StdioTransport) and the old
+            # `stdio_client_with_initialize` (an async generator yielding once)
+            import chuk_mcp.mcp_client as L
 
             async def main():
                 with anyio.fail_after(ENTRY_TIMEOUT_S):
                     params, timeout = await load_config(cfg_path, names[0])
                     obs["ret"] = {"command": params.command, "args": list(params.args),
                                   "env": None if params.env is None else dict(params.env), "timeout": timeout}
+                    for _ in range(case.get("repeat", 1)):
+                        if legacy == "transport":
+                            async with L.StdioClient(params) as t:
+                                r, w = await t.get_streams()
+                                obs["handshake"] = bool(await L.send_initialize(r, w, timeout=10.0))
+                                obs["ping"] = bool(await L.send_ping(r, w, timeout=10.0))
+                        else:
+                            async for r, w, init in L.stdio_client_with_initialize(params, timeout=10.0):
+                                obs["handshake"] = bool(init)
+                                obs["ping"] = bool(await L.send_ping(r, w, timeout=10.0))
+
+            anyio.run(main)
+        elif entry == "loader":
+            if legacy == "names":
+                from chuk_mcp.mcp_client import stdio_client
+            elif legacy == "modules":
+                stdio_client = sys.modules["chuk_mcp.mcp_client.transport.stdio.stdio_client"].stdio_client \
+                    if __import__("chuk_mcp.mcp_client") else None
+            else:
+                from chuk_mcp.transports.stdio.stdio_client import stdio_client
+
+            async def main():
+                with anyio.fail_after(ENTRY_TIMEOUT_S):
+                    params, timeout = await load_config(cfg_path, names[0])
+                    obs["ret"] = {"command": params.command, "args": list(params.args),
+                                  "env": None if params.env is None else dict(params.env), "timeout": timeout}
+                    if legacy == "modules":
+                        # what an old host did around a session: parameters class and shutdown helper from the shims
+                        shim = sys.modules["chuk_mcp.mcp_client.transport"]
+                        assert isinstance(params, shim.stdio.stdio_server_parameters.StdioServerParameters)
+                        await shim.stdio.stdio_server_shutdown.shutdown_stdio_server(None, None, None)
                     # repeat: the SAME parameters object serves a second connection
                     for _ in range(case.get("repeat", 1)):
                         async with stdio_client(params) as (r, w):
@@ -256,7 +290,10 @@ def _run_entry(case, cfg_path, obs):
                         root.removeHandler(h)
                 root.setLevel(level)
         elif entry == "runner":
-            from chuk_mcp.mcp_client.host import server_manager as SM
+            if case.get("legacy"):
+                import chuk_mcp.mcp_client as SM          # the old package layout re-exports run_command
+            else:
+                from chuk_mcp.mcp_client.host import server_manager as SM
 
             got = {"n": None, "pings": [], "info": None}
 
@@ -369,13 +406,18 @@ def run_case(case):
             except BaseException as ex:  # noqa: BLE001 - the exception class IS the observation
                 box["exc"] = ex
 
-        th = threading.Thread(target=work, daemon=True)
-        th.start()
-        th.join(ENTRY_TIMEOUT_S + 30.0)
-        if th.is_alive():
-            obs["hang"] = True
-            kill_strays(wdirs)
-            th.join(90.0)
+        if os.environ.get("COVERAGE_PROCESS_START"):
+            # coverage measurement (tools/coverage.sh) traces the main thread only: run the entry point here
+            # (the fail_after guards inside still bound it)
+            work()
+        else:
+            th = threading.Thread(target=work, daemon=True)
+            th.start()
+            th.join(ENTRY_TIMEOUT_S + 30.0)
+            if th.is_alive():
+                obs["hang"] = True
+                kill_strays(wdirs)
+                th.join(90.0)
         if "exc" in box:
             obs["raised"] = exc_obs(box["exc"])
         obs["launches"], _ = read_records(wdirs)
@@ -412,3 +454,124 @@ def run_cases(cases):
             return [run_case(c) for c in cases]
         finally:
             gc.collect()  # transports abandoned by run_command complain in __del__; keep that off the terminal
+
+
+# =============================================================================== the command line (suite "cli")
+def _cli_model_path(loc):
+    kind, name = loc.split(":", 1)
+    return name if kind == "cwd" else ("@HOME/" + name if kind == "home" else "@ABS/" + name)
+
+
+def run_cli_case(case):
+    """`python -m chuk_mcp <argv>` (in-process: `__main__.main()`), in a scratch cwd and HOME holding the
+    configuration files of `case["present"]` ({location: document}); locations `cwd:<name>`, `home:<rel>`,
+    `abs:<name>`; argv tokens may contain `@ABS/<name>` (replaced by the real path)."""
+    import chuk_mcp.__main__ as M
+    from chuk_mcp.mcp_client.host.environment import get_default_environment
+
+    obs = {"launches": [], "exit": "none", "raised": None, "default_env": {}}
+    tmp = tempfile.mkdtemp(prefix="verif-c20-")
+    roots = {"cwd": os.path.join(tmp, "cwd"), "home": os.path.join(tmp, "home"), "abs": os.path.join(tmp, "abs")}
+    for d in roots.values():
+        os.makedirs(d)
+    wdirs, paths = {}, {}
+    saved = {"HOME": os.environ.get("HOME"), "argv": sys.argv, "cwd": os.getcwd()}
+    import logging
+    root_logger = logging.getLogger()
+    handlers, level = list(root_logger.handlers), root_logger.level
+    try:
+        for loc, doc in case["present"].items():
+            for i in (placeholders(doc) if isinstance(doc, dict) else []):
+                if i not in wdirs:
+                    d = os.path.join(tmp, f"w{i}")
+                    os.mkdir(d)
+                    p = os.path.join(d, "witness")
+                    with open(p, "w") as f:
+                        f.write(WITNESS % {"py": sys.executable})
+                    os.chmod(p, 0o755)
+                    wdirs[i], paths[i] = d, p
+        for loc, doc in case["present"].items():
+            kind, name = loc.split(":", 1)
+            fp = os.path.join(roots[kind], name)
+            os.makedirs(os.path.dirname(fp), exist_ok=True)
+            with open(fp, "w") as f:
+                if doc is None:
+                    f.write("{ this is not json")
+                else:
+                    json.dump(materialise(doc, paths, wdirs), f)
+        os.environ["HOME"] = roots["home"]
+        os.chdir(roots["cwd"])
+        sys.argv = ["chuk_mcp"] + [a.replace("@ABS", roots["abs"]) for a in case["argv"]]
+        obs["default_env"] = dict(get_default_environment())
+        buf = io.StringIO()
+        try:
+            with contextlib.redirect_stdout(buf):
+                (M.run if case.get("via") == "run" else M.main)()      # `run` is the console-script entry point
+            obs["exit"] = "returned"
+        except SystemExit as ex:
+            obs["exit"] = ex.code if isinstance(ex.code, int) else (0 if ex.code is None else 1)
+        except BaseException as ex:  # noqa: BLE001
+            obs["raised"] = type(ex).__name__
+        obs["launches"], _ = read_records(wdirs)
+        canon = dict(wdirs)
+        for l in obs["launches"]:
+            l["env"] = {k: _sub_dirs(v, canon, back=True).replace(roots["home"], "@HOME") for k, v in l["env"].items()}
+        obs["default_env"] = {k: v.replace(roots["home"], "@HOME") for k, v in canon_env(obs["default_env"], canon).items()}
+    finally:
+        sys.argv = saved["argv"]
+        os.chdir(saved["cwd"])
+        if saved["HOME"] is None:
+            os.environ.pop("HOME", None)
+        else:
+            os.environ["HOME"] = saved["HOME"]
+        for h in list(root_logger.handlers):
+            if h not in handlers:
+                root_logger.removeHandler(h)
+        root_logger.setLevel(level)
+        kill_strays(wdirs)
+        shutil.rmtree(tmp, ignore_errors=True)
+    return obs
+
+
+def run_cli_cases(cases):
+    import gc
+
+    with quiet_fds():
+        try:
+            return [run_cli_case(c) for c in cases]
+        finally:
+            gc.collect()
+
+
+# =============================================================================== the default environment (suite "hostenv")
+def run_hostenv_cases(cases):
+    """the real `get_default_environment()` under generated parent environments; the win32 name list is
+    reached by re-executing the module with `sys.platform` patched (and restoring it afterwards)"""
+    import importlib
+    from unittest import mock
+
+    import chuk_mcp.mcp_client as legacy
+    import chuk_mcp.mcp_client.host.environment as envmod
+
+    out = [None] * len(cases)
+
+    def batch(idx, via_legacy):
+        for i in idx:
+            fn = legacy.get_default_environment if via_legacy(i) else envmod.get_default_environment
+            with mock.patch.dict(os.environ, cases[i]["parent"], clear=True):
+                try:
+                    out[i] = {"env": dict(fn())}
+                except Exception as ex:  # noqa: BLE001
+                    out[i] = {"env": None, "raised": type(ex).__name__}
+
+    posix = [i for i, c in enumerate(cases) if not c.get("win32")]
+    win = [i for i, c in enumerate(cases) if c.get("win32")]
+    batch(posix, lambda i: i % 2 == 1)
+    if win:
+        try:
+            with mock.patch.object(sys, "platform", "win32"):
+                importlib.reload(envmod)
+            batch(win, lambda i: False)
+        finally:
+            importlib.reload(envmod)
+    return out
